@@ -2,6 +2,14 @@
 
 package counters
 
+import (
+	"fmt"
+	"runtime/debug"
+	"time"
+
+	pr "github.com/benoitkugler/webrender/css/properties"
+)
+
 // Contracts for the deductive verifier in /verif (build tag verif: this file is
 // not compiled into normal builds). Oracle: CSS Counter Styles 3, §3.1 (systems),
 // §2 (generate a counter) and property C19.
@@ -148,3 +156,64 @@ func vcyc(value, n int) int {
 //@   assert after counterValue#1: counterValue == -old(counterValue) && counterValue > 0
 //@   unclaimed call-additive@1-pre1 "needs the data invariant the additive-symbols validator establishes (weights >= 0) for every style of the map, after extends merging"
 //@   unclaimed call-numeric@1-pre1 "needs the data invariant of Validate (numeric styles have symbols) for every style of the map, after extends merging"
+
+// ---------------------------------------------------------------------------
+// bounded stand-in (C19, C01): fallback and extends graphs. The recursion of renderValue /
+// resolveCounter over `fallback` and `extends` is guarded by a set of visited names: its
+// termination measure (the number of styles not yet visited) is a count over a map, not
+// expressible in the contract language. vCounterGraphs renders 4 values with each of three author
+// styles a, b, c for EVERY assignment of (system: fixed over two symbols | extends a | extends b |
+// extends c) x (fallback: a | b | c | decimal) to the three styles — 4096 style graphs incl.
+// self references and cycles of both kinds — and checks that the call returns a non-empty
+// representation (decimal is the last resort). A runaway recursion kills the process
+// ("enumerator did not run"); a non-terminating loop is caught by the 5 s watchdog.
+func vCounterGraphs() (int, []string) {
+	debug.SetMaxStack(64 << 20)
+	names := []string{"a", "b", "c"}
+	systems := []CounterStyleSystem{{"", "fixed", 1}, {"extends", "a", 0}, {"extends", "b", 0}, {"extends", "c", 0}}
+	fallbacks := []string{"a", "b", "c", "decimal"}
+	sym := func(s string) pr.NamedString { return pr.NamedString{Name: "string", String: s} }
+	decimal := CounterStyleDescriptors{System: CounterStyleSystem{"", "numeric", 0}, Fallback: "decimal"}
+	for _, d := range []string{"0", "1", "2", "3", "4", "5", "6", "7", "8", "9"} {
+		decimal.Symbols = append(decimal.Symbols, sym(d))
+	}
+	n, fails := 0, []string{}
+	for ia := 0; ia < 16; ia++ {
+		for ib := 0; ib < 16; ib++ {
+			for ic := 0; ic < 16; ic++ {
+				choice := map[string]int{"a": ia, "b": ib, "c": ic}
+				done := make(chan string, 1)
+				go func() {
+					for _, start := range names {
+						for _, v := range []int{-1, 1, 2, 5} {
+							// styles are rebuilt for every call: extends merging mutates them
+							cs := CounterStyle{"decimal": decimal}
+							for _, nm := range names {
+								k := choice[nm]
+								cs[nm] = CounterStyleDescriptors{System: systems[k/4], Fallback: fallbacks[k%4], Symbols: []pr.NamedString{sym("X"), sym("Y")}}
+							}
+							if r := cs.RenderValue(v, start); r == "" {
+								done <- fmt.Sprintf("a=%d b=%d c=%d: RenderValue(%d, %q) is empty", ia, ib, ic, v, start)
+								return
+							}
+						}
+					}
+					done <- ""
+				}()
+				n++
+				select {
+				case msg := <-done:
+					if msg != "" && len(fails) < 5 {
+						fails = append(fails, msg)
+					}
+				case <-time.After(5 * time.Second):
+					return n, append(fails, fmt.Sprintf("a=%d b=%d c=%d: RenderValue does not return", ia, ib, ic))
+				}
+			}
+		}
+	}
+	return n, fails
+}
+
+//@ bounded vCounterGraphs RenderValue over every fallback/extends graph on three author counter styles (4096 graphs incl. cycles) x 3 start styles x 4 values: returns a non-empty representation
+//@   props C19 C01
